@@ -6,6 +6,8 @@ repo = sys.argv[1] if len(sys.argv) > 1 else "/repo"
 base = json.load(open("/root/.vp/BASELINE.json"))
 out = tempfile.mktemp(suffix=".xml", dir="/verif/.work" if os.path.isdir("/verif/.work") else None)
 env = dict(os.environ); env.pop("FCP_CORE_VERIF", None)
+if os.path.abspath(repo) != "/repo":
+    env["PYTHONPATH"] = os.path.join(os.path.abspath(repo), "src")      # a scratch checkout: import ITS fcp, not /repo's
 subprocess.run(["/venv/bin/python", "-m", "pytest", "-q", "-p", "no:cacheprovider", "--timeout=900",
                 "--continue-on-collection-errors", "--junitxml=" + out], cwd=repo, env=env,
                stdout=subprocess.DEVNULL, stderr=subprocess.DEVNULL)
